@@ -2,7 +2,11 @@
 //! (TCP+TLS, duplex+TLS), real time. A sequence of misbehaving clients, some of them before the
 //! server is first polled (they sit in the listen backlog), then one well-behaved probe client.
 //!
-//! line: `srvk <h1|auto> <tcp|unix|tcptls|duptls> ; <fault> ; …`
+//! `backlog` / `backlogtls`: an acceptor of the caller's own (the `Accept` trait is public, `Acceptor::new(..).with_tls(..)` layers TLS
+//! over it): an in-memory listen queue of duplex streams in which, as in a kernel backlog, a connection sits with whatever its
+//! client has already written - and, unlike a tokio socket, is readable at once when it is accepted.
+//!
+//! line: `srvk <h1|auto> <tcp|unix|tcptls|duptls|backlog|backlogtls> ; <fault> ; …`
 //!   fault: `[pre:]rst | close | garbage | half | stall | tlshalf`   (`pre:` = before the server future is first polled)
 //! obs : `<P|OK|EA|EM|EO|PANIC> <probe served 0|1>`
 use crate::rng::Rng;
@@ -17,7 +21,7 @@ use tokio::io::{AsyncRead, AsyncReadExt, AsyncWrite, AsyncWriteExt};
 type BoxError = Box<dyn std::error::Error + Send + Sync + 'static>;
 
 const FAULTS: &[&str] = &["rst", "close", "garbage", "half", "stall", "tlshalf"];
-const KINDS: &[&str] = &["tcp", "tcp", "unix", "tcptls", "duptls"];
+const KINDS: &[&str] = &["tcp", "tcp", "unix", "tcptls", "duptls", "backlog", "backlogtls"];
 
 pub fn gen(r: &mut Rng, _i: u64) -> String {
     let proto = if r.chance(1, 2) { "h1" } else { "auto" };
@@ -31,7 +35,7 @@ pub fn gen(r: &mut Rng, _i: u64) -> String {
 pub fn exhaustive() -> Vec<String> {
     let mut out = vec![];
     for proto in ["h1", "auto"] {
-        for kind in ["tcp", "unix", "tcptls", "duptls"] {
+        for kind in ["tcp", "unix", "tcptls", "duptls", "backlog", "backlogtls"] {
             for f in FAULTS {
                 out.push(format!("srvk {proto} {kind} ; pre:{f}"));
                 out.push(format!("srvk {proto} {kind} ; {f}"));
@@ -48,7 +52,22 @@ async fn handler(_: http::Request<Body>) -> Result<http::Response<Body>, BoxErro
 trait Io: AsyncRead + AsyncWrite + Unpin + Send {}
 impl<T: AsyncRead + AsyncWrite + Unpin + Send> Io for T {}
 
-enum Target { Tcp(std::net::SocketAddr), Unix(std::path::PathBuf), Duplex(duplex::DuplexClient) }
+#[derive(Default)]
+struct Backlog { queue: std::collections::VecDeque<duplex::DuplexStream>, waker: Option<std::task::Waker> }
+struct BacklogIncoming(Arc<std::sync::Mutex<Backlog>>);
+impl hyperdriver::server::conn::Accept for BacklogIncoming {
+    type Conn = duplex::DuplexStream;
+    type Error = std::io::Error;
+    fn poll_accept(self: std::pin::Pin<&mut Self>, cx: &mut std::task::Context<'_>) -> std::task::Poll<Result<Self::Conn, Self::Error>> {
+        let mut b = self.0.lock().unwrap();
+        match b.queue.pop_front() {
+            Some(s) => std::task::Poll::Ready(Ok(s)),
+            None => { b.waker = Some(cx.waker().clone()); std::task::Poll::Pending }
+        }
+    }
+}
+
+enum Target { Tcp(std::net::SocketAddr), Unix(std::path::PathBuf), Duplex(duplex::DuplexClient), Backlog(Arc<std::sync::Mutex<Backlog>>) }
 
 impl Target {
     async fn connect(&self, rst: bool) -> Option<Box<dyn Io>> {
@@ -60,6 +79,13 @@ impl Target {
             }
             Target::Unix(p) => Some(Box::new(tokio::net::UnixStream::connect(p).await.ok()?)),
             Target::Duplex(c) => Some(Box::new(tokio::time::timeout(Duration::from_millis(300), c.connect(64 * 1024)).await.ok()?.ok()?)),
+            Target::Backlog(b) => {
+                let (client, server) = duplex::DuplexStream::new(64 * 1024);
+                let mut b = b.lock().unwrap();
+                b.queue.push_back(server);
+                if let Some(w) = b.waker.take() { w.wake(); }
+                Some(Box::new(client))
+            }
         }
     }
 }
@@ -110,37 +136,57 @@ async fn probe(t: &Target, tls: bool) -> bool {
 async fn run_case(proto: &str, kind: &str, faults: &[&str]) -> String {
     crate::tls::install();
     let tls = kind.ends_with("tls");
-    let make = || hyperdriver::service::make_service_fn(|_io: &hyperdriver::server::conn::Stream| async { Ok::<_, BoxError>(tower::service_fn(handler)) });
     let mut sock_path = None;
-    let (target, acceptor) = match kind {
+    type Serve = std::pin::Pin<Box<dyn std::future::Future<Output = Result<(), hyperdriver::server::ServerError>> + Send>>;
+    macro_rules! serve_on { ($acceptor:expr) => {{
+        let acceptor = $acceptor;
+        let s: Serve = if proto == "h1" {
+            Box::pin(std::future::IntoFuture::into_future(Server::builder().with_acceptor(acceptor).with_shared_service(tower::service_fn(handler)).with_http1().with_tokio()))
+        } else {
+            Box::pin(std::future::IntoFuture::into_future(Server::builder().with_acceptor(acceptor).with_shared_service(tower::service_fn(handler)).with_auto_http().with_tokio()))
+        };
+        s
+    }}; }
+    let tls_cfg = || Arc::new(crate::tls::server_config("good", "-"));
+    // the serving future is built now, but (like the stock acceptors' listeners) the listening end exists from here on
+    let (target, build): (Target, Box<dyn FnOnce() -> Serve + Send>) = match kind {
         "unix" => {
             static N: std::sync::atomic::AtomicUsize = std::sync::atomic::AtomicUsize::new(0);
             let p = std::env::temp_dir().join(format!("hdverif-{}-{}.sock", std::process::id(), N.fetch_add(1, std::sync::atomic::Ordering::SeqCst)));
             let _ = std::fs::remove_file(&p);
             let l = tokio::net::UnixListener::bind(&p).unwrap();
             sock_path = Some(p.clone());
-            (Target::Unix(p), Acceptor::from(l))
+            let a = Acceptor::from(l);
+            (Target::Unix(p), Box::new(move || serve_on!(a)))
         }
         "duptls" => {
             let (c, incoming) = duplex::pair();
-            (Target::Duplex(c), Acceptor::from(incoming))
+            let a = Acceptor::from(incoming).with_tls(tls_cfg());
+            (Target::Duplex(c), Box::new(move || serve_on!(a)))
+        }
+        "backlog" => {
+            let b: Arc<std::sync::Mutex<Backlog>> = Default::default();
+            let a = Acceptor::new(BacklogIncoming(b.clone()));
+            (Target::Backlog(b), Box::new(move || serve_on!(a)))
+        }
+        "backlogtls" => {
+            let b: Arc<std::sync::Mutex<Backlog>> = Default::default();
+            let a = Acceptor::new(BacklogIncoming(b.clone())).with_tls(tls_cfg());
+            (Target::Backlog(b), Box::new(move || serve_on!(a)))
         }
         _ => {
             let l = tokio::net::TcpListener::bind((std::net::Ipv4Addr::LOCALHOST, 0)).await.unwrap();
-            (Target::Tcp(l.local_addr().unwrap()), Acceptor::from(l))
+            let addr = l.local_addr().unwrap();
+            if tls { let a = Acceptor::from(l).with_tls(tls_cfg()); (Target::Tcp(addr), Box::new(move || serve_on!(a))) }
+            else { let a = Acceptor::from(l); (Target::Tcp(addr), Box::new(move || serve_on!(a))) }
         }
     };
-    let acceptor = if tls { acceptor.with_tls(Arc::new(crate::tls::server_config("good", "-"))) } else { acceptor };
     let mut held = Vec::new();
     for f in faults.iter().filter_map(|f| f.strip_prefix("pre:")) {
         fault(&target, f, &mut held, true).await;
     }
     tokio::time::sleep(Duration::from_millis(30)).await; // let RSTs reach the backlog
-    let serve: std::pin::Pin<Box<dyn std::future::Future<Output = Result<(), hyperdriver::server::ServerError>> + Send>> = if proto == "h1" {
-        Box::pin(std::future::IntoFuture::into_future(Server::builder().with_acceptor(acceptor).with_make_service(make()).with_http1().with_tokio()))
-    } else {
-        Box::pin(std::future::IntoFuture::into_future(Server::builder().with_acceptor(acceptor).with_make_service(make()).with_auto_http().with_tokio()))
-    };
+    let serve = build();
     let task = tokio::spawn(serve);
     tokio::time::sleep(Duration::from_millis(5)).await;
     for f in faults.iter().filter(|f| !f.starts_with("pre:")) {
